@@ -57,6 +57,9 @@ type scenario struct {
 	name  string
 	build func(w *gitx.World, srv *fakelfs.Server) // builds <root>/repo
 	cmd   func(w *gitx.World, env []string) gitx.Res
+	// prep (optional) runs on every fresh copy of the base world before the command: for state that must not be shared
+	// between copies (a directory on another file system)
+	prep func(w *gitx.World)
 	// filled lazily
 	once   sync.Once
 	base   string
@@ -138,6 +141,16 @@ func scenarios(thorough bool) []*scenario {
 			gitx.WriteFile(repo, "a.bin", A, 0644)
 			gitx.WriteFile(repo, "b.bin", B, 0644)
 		}, cmd: func(w *gitx.World, env []string) gitx.Res {
+			return w.GitE(repoOf(w), env, "add", "a.bin", "b.bin")
+		}},
+		{name: "git-add-tmp-on-other-fs", build: func(w *gitx.World, srv *fakelfs.Server) {
+			// lfs/tmp lives on another file system than lfs/objects (a symlinked or separately mounted temporary area): the
+			// final rename of the cleaned object fails with EXDEV; whatever git-lfs does then (today: give up), a kill must
+			// not leave a partial file at the object's final place
+			repo := baseRepo(w, nil)
+			gitx.WriteFile(repo, "a.bin", A, 0644)
+			gitx.WriteFile(repo, "b.bin", B, 0644)
+		}, prep: tmpOnOtherFS, cmd: func(w *gitx.World, env []string) gitx.Res {
 			return w.GitE(repoOf(w), env, "add", "a.bin", "b.bin")
 		}},
 		{name: "smudge-with-download", build: func(w *gitx.World, srv *fakelfs.Server) {
@@ -338,13 +351,48 @@ func newCopy(sc *scenario) *gitx.World {
 	}
 	root := filepath.Join(dir, "w")
 	gitx.CopyTree(sc.base, root)
-	return worldAt(root)
+	w := worldAt(root)
+	if sc.prep != nil {
+		sc.prep(w)
+	}
+	return w
 }
+
+// directories outside a copy's own tree (another file system) that belong to it
+var (
+	extMu   sync.Mutex
+	extDirs = map[string][]string{}
+)
 
 func closeCopy(w *gitx.World) {
 	wd := filepath.Dir(w.Root)
 	w.Close()
 	os.RemoveAll(wd)
+	extMu.Lock()
+	ds := extDirs[w.Root]
+	delete(extDirs, w.Root)
+	extMu.Unlock()
+	for _, d := range ds {
+		os.RemoveAll(d)
+	}
+}
+
+// tmpOnOtherFS replaces <repo>/.git/lfs/tmp of this copy by a symbolic link to a private directory on another file system
+// (tmpfs), so that the rename of a finished temporary file into lfs/objects crosses file systems (EXDEV).
+func tmpOnOtherFS(w *gitx.World) {
+	ext, err := os.MkdirTemp("/dev/shm", "verif-c09-tmp")
+	if err != nil {
+		return // no second file system available: the scenario degenerates to the plain one
+	}
+	extMu.Lock()
+	extDirs[w.Root] = append(extDirs[w.Root], ext)
+	extMu.Unlock()
+	tmp := filepath.Join(lfsOf(w), "tmp")
+	os.RemoveAll(tmp)
+	os.MkdirAll(filepath.Dir(tmp), 0755)
+	if err := os.Symlink(ext, tmp); err != nil {
+		panic(err)
+	}
 }
 
 func osxEnv(mode, dir, root, target string, n int) []string {
